@@ -164,8 +164,16 @@ def run_impl(cfg, events, ops, trace=False, payload_type=bytes, keymode="script"
         for op in ops:
             before = len(sock.sent)
             a = op.split(":")
+            idle = False
+            if a[0] == "sel":
+                # a select-driven caller: the call is made only when the TRANSPORT is readable (what the library holds in its
+                # own buffers is invisible to select)
+                a = a[1:]
+                idle = not (ws.sock is not None and sock.readable())
             try:
-                if a[0] in ("recv", "next", "iter"):
+                if idle:
+                    res = "IDLE"
+                elif a[0] in ("recv", "next", "iter"):
                     # the three spellings of "receive the next message" (the model has one)
                     r = ws.recv() if a[0] == "recv" else (ws.next() if a[0] == "next" else next(iter(ws)))
                     if isinstance(r, str):
